@@ -908,6 +908,27 @@ impl Sys {
     // -----------------------------------------------------------------------------------------
 
     pub fn epilogue(&mut self) -> R {
+        // Clone::clone_from between two worlds of the state (an implementation may override it to reuse allocations): the
+        // target must end up as a copy of the source, its old values dropped exactly once (registry), nothing else touched.
+        if (self.sc.want("C04") || self.sc.want("C13")) && self.sc.max_faults == 0 {
+            let alive: Vec<usize> = (0..self.worlds.len()).filter(|w| self.world_alive(*w)).collect();
+            if alive.len() >= 2 {
+                let (dst, src) = if self.uid_next % 2 == 0 { (alive[0], alive[1]) } else { (alive[1], alive[0]) };
+                let mut d = self.worlds[dst].take().unwrap();
+                let r = {
+                    let s = self.worlds[src].as_ref().unwrap();
+                    catch_unwind(AssertUnwindSafe(|| d.clone_from(s)))
+                };
+                self.worlds[dst] = Some(d);
+                if let Err(p) = r {
+                    return vio!("C13,C04", "unexpected-panic:clone_from", "world.clone_from(&other) panicked: {}", panic_msg(&p));
+                }
+                self.models[dst] = self.models[src].clone();
+                ensure!(self.dumps(dst) == self.dumps(src), "C13", "clone-from-representation-differs", "after a.clone_from(&b) the two worlds differ: {:?} vs {:?}", self.dumps(dst), self.dumps(src));
+                self.check_registry("after clone_from")?;
+                self.check_repr(dst)?;
+            }
+        }
         let refill = self.sc.want("C12") || self.sc.want("C13") || self.sc.want("C08") || self.sc.want("C04") || self.sc.want("C10");
         for w in 0..self.worlds.len() {
             if !self.world_alive(w) {
